@@ -29,6 +29,7 @@ type c19Case struct {
 	Layout  []float64 `json:"layout"`  // startX, startY, colGap, rowGap, procGap ; nil = DefaultAutoLayoutConfig
 	N       int       `json:"n"`       // rawids: number of ids drawn
 	Reuse   int       `json:"reuse"`   // 0 fresh ProcessBuilder per process; 1 one builder reused after Out(); 2 reused builder that already produced a discarded process
+	Names   [][]string `json:"names,omitempty"` // explicit preset ids per process and activity (valid, pairwise distinct)
 	DefReuse int      `json:"defreuse,omitempty"` // the definitions builder has already produced a document with this many processes (0 = fresh builder)
 	AST     *gen.Block `json:"ast,omitempty"` // graph: a parsed block-structured process handed to AddProcess (branches, loops, sub-processes)
 	Twice   bool      `json:"twice,omitempty"` // graph: AutoLayout called twice
@@ -131,6 +132,32 @@ func c19Cases(tier string, seed uint64) []fw.Case {
 		}
 		add(procs, rng.Bool())
 	}
+	// preset ids made of the same few words joined by underscores, in every order of four and five of them:
+	// whatever ids the builder derives for the elements it adds must stay unique next to them
+	words := []string{"a", "b_c", "a_b", "c", "b", "a_b_c", "c_a", "flow_a", "start", "end_b"}
+	for i := 0; i < 60; i++ {
+		n := 4 + i%3
+		var ids []string
+		for k := 0; k < n; k++ {
+			ids = append(ids, words[(i+k*[]int{1, 3, 7, 9}[i%4])%len(words)]) // strides coprime with 10: distinct
+		}
+		if i < 24 {
+			// the first 24: all orders of the four ids that collide when joined pairwise by underscores
+			base := []string{"a", "b_c", "a_b", "c"}
+			perm := fw.Permutations(4)[i]
+			ids = []string{base[perm[0]], base[perm[1]], base[perm[2]], base[perm[3]]}
+		}
+		seq := make([]int, len(ids))
+		for k := range seq {
+			seq[k] = (i + k) % len(c19Types)
+			if c19Types[seq[k]] == "subProcess" {
+				seq[k] = 0
+			}
+		}
+		c := c19Case{Kind: "build", Procs: [][]int{seq}, Preset: true, Names: [][]string{ids}, Layout: layouts[i%len(layouts)]}
+		c.Name = fmt.Sprintf("build/names/%v", ids)
+		cs = append(cs, fw.MkCase("build", &c))
+	}
 	// processes that are not chains: parsed block-structured programs (branches, joins, loops = back edges,
 	// sub-processes, several end events) handed to AddProcess and laid out
 	gprogs := forcedPairs(rng)
@@ -191,6 +218,9 @@ func c19Build(c *c19Case, env *fw.Env, v *fw.V) {
 			preset := ""
 			if c.Preset {
 				preset = fmt.Sprintf("act_%d_%d", pi, ai)
+			}
+			if pi < len(c.Names) && ai < len(c.Names[pi]) {
+				preset = c.Names[pi][ai]
 			}
 			a := c19Activity(ti, preset)
 			pb.AddActivity(a)
